@@ -38,12 +38,17 @@ def gen_chart(rp, dm=None, features=None, max_states=10):
     dm = dm or rp.choice(["null", "lua", "promela"])
     features = dict(features or {})
     par_p = features.pop("par_p", 0.3)
-    if "par_bias" not in features and rp.random() < par_p:
+    hist_p = features.pop("hist_p", 0.15)
+    x = rp.random()
+    if "par_bias" not in features and x < par_p:
         features["par_bias"] = True
+        features["small_alphabet"] = True
+    elif "hist_bias" not in features and features.get("history", True) and x < par_p + hist_p:
+        features["hist_bias"] = True
         features["small_alphabet"] = True
     g = gen.Gen(rp, dm, max_states=max_states, features=features)
     root = g.build()
-    root.meta = dict(root.meta or {}, par_bias=bool(features.get("par_bias")))
+    root.meta = dict(root.meta or {}, par_bias=bool(features.get("par_bias") or features.get("hist_bias")))
     return root
 
 
